@@ -195,12 +195,35 @@ def shortCut (op : BinOp) (a : Int64) : Option Int64 :=
   | .lor => if a ≠ 0 then some 1 else none
   | _ => none
 
+/-- a target whose subscript has been evaluated (`resolve_lvalue`) -/
+inductive RT
+  | var (name : Str)
+  | elem (name : Str) (i : Int64)
+  deriving DecidableEq
+
+/-- the resolved target as an `ArithmeticTarget` again: the subscript is a literal -/
+def RT.toTarget : RT → Target
+  | .var n => .var n
+  | .elem n i => .elem n (.lit i)
+
+/-- `assign` on a resolved target -/
+def assignR (env : Env) (rt : RT) (v : Int64) : Env × Res :=
+  match rt with
+  | .var n => (setVar env n v, .ok v)
+  | .elem n i =>
+    match setElem env n i v with
+    | (env2, true) => (env2, .ok v)
+    | (env2, false) => (env2, .err .update)
+
 mutual
 /-- `eval_expr_impl` -/
 def eval (P : Str → Option Expr) (d : Nat) (env : Env) (e : Expr) : Env × Res :=
   match e with
   | .lit n => (env, .ok n)
-  | .ref t => deref P d env t
+  | .ref t =>
+    match resolve P d env t with
+    | (env0, .ok rt) => derefR P d env0 rt
+    | (env0, .error er) => (env0, .err er)
   | .un op x =>
     match eval P d env x with
     | (env1, .ok v) => (env1, .ok (applyUn op v))
@@ -221,43 +244,60 @@ def eval (P : Str → Option Expr) (d : Nat) (env : Env) (e : Expr) : Env × Res
     | q => q
   | .assign t r =>
     match eval P d env r with
-    | (env1, .ok v) => assignT P d env1 t v
+    | (env1, .ok v) =>
+      match resolve P d env1 t with
+      | (env2, .ok rt) => assignR env2 rt v
+      | (env2, .error er) => (env2, .err er)
     | q => q
   | .incDec op t =>
-    match deref P d env t with
-    | (env1, .ok v) =>
-      match assignT P d env1 t (incNew op v) with
-      | (env2, .ok _) => (env2, .ok (incRet op v))
-      | q => q
-    | q => q
-  | .opAssign op t r =>
-    -- `apply_binary_op(op, Reference(lvalue), operand)` then `assign`
-    match deref P d env t with
-    | (env1, .ok a) =>
-      match shortCut op a with
-      | some v => assignT P d env1 t v
-      | none =>
-        match eval P d env1 r with
-        | (env2, .ok b) =>
-          match applyBin op a b with
-          | .ok v => assignT P d env2 t v
-          | .err er => (env2, .err er)
+    -- the target is read and written: its subscript is evaluated once (`resolve_lvalue`)
+    match resolve P d env t with
+    | (env0, .ok rt) =>
+      match derefR P d env0 rt with
+      | (env1, .ok v) =>
+        match assignR env1 rt (incNew op v) with
+        | (env2, .ok _) => (env2, .ok (incRet op v))
         | q => q
-    | q => q
+      | q => q
+    | (env0, .error er) => (env0, .err er)
+  | .opAssign op t r =>
+    -- `resolve_lvalue`, then `apply_binary_op(op, Reference(lvalue), operand)`, then `assign`
+    match resolve P d env t with
+    | (env0, .ok rt) =>
+      match derefR P d env0 rt with
+      | (env1, .ok a) =>
+        match shortCut op a with
+        | some v => assignR env1 rt v
+        | none =>
+          match eval P d env1 r with
+          | (env2, .ok b) =>
+            match applyBin op a b with
+            | .ok v => assignR env2 rt v
+            | .err er => (env2, .err er)
+          | q => q
+      | q => q
+    | (env0, .error er) => (env0, .err er)
 termination_by (maxDepth + 1 - d, sizeOf e, 0)
 
-/-- `deref_lvalue` -/
-def deref (P : Str → Option Expr) (d : Nat) (env : Env) (t : Target) : Env × Res :=
+/-- evaluation of a target's subscript (in `deref_lvalue`, `assign`, `resolve_lvalue`) -/
+def resolve (P : Str → Option Expr) (d : Nat) (env : Env) (t : Target) : Env × Except Err RT :=
   match t with
-  | .var n => derefStr P d env (varStr env n)
+  | .var n => (env, .ok (.var n))
   | .elem n idx =>
     match eval P d env idx with
-    | (env1, .ok i) =>
-      match elemStr env1 n i with
-      | none => (env1, .err .array)
-      | some s => derefStr P d env1 s
-    | q => q
+    | (env1, .ok i) => (env1, .ok (.elem n i))
+    | (env1, .err er) => (env1, .error er)
 termination_by (maxDepth + 1 - d, sizeOf t, 1)
+
+/-- `deref_lvalue` once the subscript is known -/
+def derefR (P : Str → Option Expr) (d : Nat) (env : Env) (rt : RT) : Env × Res :=
+  match rt with
+  | .var n => derefStr P d env (varStr env n)
+  | .elem n i =>
+    match elemStr env n i with
+    | none => (env, .err .array)
+    | some s => derefStr P d env s
+termination_by (maxDepth + 1 - d, 0, 1)
 
 /-- the tail of `deref_lvalue`: parse the contents; a literal is the value, anything else is evaluated
 one level deeper (at most 1024 levels) -/
@@ -267,19 +307,18 @@ def derefStr (P : Str → Option Expr) (d : Nat) (env : Env) (s : Str) : Env × 
   | some (.lit n) => (env, .ok n)
   | some e => if h : d + 1 > maxDepth then (env, .err .recursion) else eval P (d + 1) env e
 termination_by (maxDepth + 1 - d, 0, 0)
+end
+
+/-- `deref_lvalue` -/
+def deref (P : Str → Option Expr) (d : Nat) (env : Env) (t : Target) : Env × Res :=
+  match resolve P d env t with
+  | (env0, .ok rt) => derefR P d env0 rt
+  | (env0, .error er) => (env0, .err er)
 
 /-- `assign` -/
 def assignT (P : Str → Option Expr) (d : Nat) (env : Env) (t : Target) (v : Int64) : Env × Res :=
-  match t with
-  | .var n => (setVar env n v, .ok v)
-  | .elem n idx =>
-    match eval P d env idx with
-    | (env1, .ok i) =>
-      match setElem env1 n i v with
-      | (env2, true) => (env2, .ok v)
-      | (env2, false) => (env2, .err .update)
-    | q => q
-termination_by (maxDepth + 1 - d, sizeOf t, 1)
-end
+  match resolve P d env t with
+  | (env0, .ok rt) => assignR env0 rt v
+  | (env0, .error er) => (env0, .err er)
 
 end BrushVerif.Arith
